@@ -121,7 +121,11 @@ def _orient_generic():
     return {"kind": "generic"}
 
 
-def _orient_axis(g, axis=None, cone=None, cones=(0.0, 0.0, 1e-4, 1e-2, 1e-6)):
+CONES_QUICK = (0.0, 0.0, 1e-6, 1e-4, 1e-3, 1e-2)
+CONES_THOROUGH = (0.0, 1e-10, 1e-8, 1e-6, 1e-4, 6e-4, 1e-3, 1e-2)   # 4.47e-4 rad is the edge of the frozen-frame cone
+
+
+def _orient_axis(g, axis=None, cone=None, cones=CONES_QUICK):
     axes = list(gen.AXES)
     return {"kind": "align", "axis": axis or axes[int(g.integers(0, 6))],
             "cone": float(cones[int(g.integers(0, len(cones)))] if cone is None else cone),
@@ -150,7 +154,8 @@ def _lib_case(g, tier, method=None, name=None, orient=None, layout=None, sp2=Non
     if uhf:
         sp2 = None
     if orient is None:
-        orient = _orient_generic() if int(g.integers(0, 4)) else _orient_axis(g)
+        orient = _orient_generic() if int(g.integers(0, 4)) else \
+            _orient_axis(g, cones=CONES_QUICK if tier == "quick" else CONES_THOROUGH)
     case = {"kind": "lib", "mol": name, "method": method, "conv": conv, "sp2": sp2 or None, "uhf": bool(uhf),
             "modes": modes or list(ALL_MODES), "orient": orient, "layout": layout,
             "sigma": float(sigma if sigma is not None else [0.03, 0.08, 0.15][int(g.integers(0, 3))]),
@@ -237,7 +242,8 @@ def gen_cases(tier, seed):
             else:
                 for si, sc in enumerate(scales):
                     pairs.append(_pair_case(g, method, a, b, sc, _orient_generic(), uhf=(odd and si == 1) or (k + si) % 5 == 0))
-                    pairs.append(_pair_case(g, method, a, b, sc, _orient_axis(g), uhf=(k + si) % 7 == 0))
+                    pairs.append(_pair_case(g, method, a, b, sc, _orient_axis(g, cones=CONES_THOROUGH),
+                                            uhf=(k + si) % 7 == 0))
     cases = lib + pairs
     if not quick:
         # the excited-state cases (most expensive) stay in front; the rest is interleaved so that a run cut short by the
